@@ -624,6 +624,14 @@ class SInt(object):
         if c.ring_p is not None and isinstance(b, SInt) and b.t.eq(c.ring_p):
             # ring mode: Z -> F_p is a ring homomorphism; `% p` is the identity
             return None, a
+        if getattr(c, "lin_p", None) is not None and isinstance(b, SInt) and b.t.eq(c.lin_p):
+            # linear mode: the residue is some value in [0, p); its relation to the
+            # operand is dropped (only ranges / canonicity are being decided)
+            r = z3.Int(c.fresh("res"))
+            c.add(z3.And(r >= 0, r < c.lin_p))
+            rr = SInt(r)
+            c.reduced.add(r.get_id())
+            return None, rr
         bc = b if isinstance(b, int) else _const_of(b.t)
         at = lift(a)
         if bc is not None and bc > 0:
@@ -869,7 +877,11 @@ class SInt(object):
         raise CannotEncode("hash of symbolic int")
 
     def __bool__(self):
-        return ctx().truth(self.t != lift(0))
+        c = ctx()
+        hook = getattr(c, "zero_test_hook", None)
+        if hook is not None:
+            hook(self)
+        return c.truth(self.t != lift(0))
 
     def __index__(self):
         raise CannotEncode("symbolic int used where CPython needs a concrete index "
